@@ -67,7 +67,9 @@ def gen_case(rng, mode, groups=None, fault_pos=None, steps=None, nruns=None, no_
     groups = groups or gen_pipeline(rng)
     steps = steps or rng.choice([1, 2, 3])
     sched = schedule(groups)
-    case = {"mode": mode, "groups": groups, "steps": steps, "fault": None}
+    # seeded regions on the way out: a declared pipeline seed (0 is a seed too) wraps every run in `with set_random_seed(seed)`
+    case = {"mode": mode, "groups": groups, "steps": steps, "fault": None,
+            "pipeline_seed": rng.choice([None, None, 0, 7, 12345])}
     if mode in ("sequential", "parallel"):
         nruns = nruns or rng.choice([2, 3])
         two = (rng.random() < 0.35) if two is None else two
@@ -81,7 +83,9 @@ def gen_case(rng, mode, groups=None, fault_pos=None, steps=None, nruns=None, no_
         fault_pos = None if rng.random() < 0.12 else (rng.randrange(nr), rng.randrange(steps), rng.randrange(len(sched)))
     if fault_pos is not None:
         r, s, k = fault_pos
-        case["fault"] = {"run": r, "step": s, "pos": k, "id": sched[k][2], **gen_exc(rng)}
+        case["fault"] = {"run": r, "step": s, "pos": k, "id": sched[k][2], **gen_exc(rng),
+                         # ... and the failing model may raise inside its own seeded region
+                         "model_seed": rng.choice([None, None, None, 0, 42])}
     # the swept `level` arguments live on one model: the failing one (or the first scheduled)
     case["swept"] = sched[fault_pos[2]][2] if fault_pos is not None else sched[0][2]
     return case
@@ -106,7 +110,7 @@ def build_pipeline(case, extra_first=None):
         plan = {"id": f["id"], "step": f["step"], "exc": f["exc"], "msg": f["msg"], "note": f["note"],
                 "level": lv[0] if case["mode"] in ("sequential", "parallel") else None,
                 "level2": lv[1] if (case["mode"] in ("sequential", "parallel") and case["levels2"]) else None,
-                "nth": f.get("nth")}
+                "nth": f.get("nth"), "model_seed": f.get("model_seed")}
         if plan["nth"] is not None:
             plan["step"] = None
     d = {}
@@ -164,7 +168,7 @@ def run_impl(case):
     if mode == "exposure":
         pipe = build_pipeline(case)
         try:
-            res = pyxel.run_mode(pyx.make_exposure(times=times), det, pipe)
+            res = pyxel.run_mode(pyx.make_exposure(times=times, pipeline_seed=case.get("pipeline_seed")), det, pipe)
             out["result"] = {"ok": type(res).__name__}
         except Exception as e:  # noqa: BLE001
             out["result"] = {"err": exc_record(e)}
@@ -178,7 +182,8 @@ def run_impl(case):
         params = [ParameterValues(key=k1, values=list(case["levels"]))]
         if case["levels2"]:
             params.append(ParameterValues(key=k2, values=list(case["levels2"])))
-        obs = Observation(parameters=params, readout=Readout(times=times), mode="product", with_dask=(mode == "parallel"))
+        obs = Observation(parameters=params, readout=Readout(times=times), mode="product", with_dask=(mode == "parallel"),
+                          pipeline_seed=case.get("pipeline_seed"))
         pipe = build_pipeline(case)
         if mode == "parallel" and case.get("writer"):
             from pyxel.pipelines import ModelFunction
@@ -253,7 +258,7 @@ def run_impl(case):
                 parameters=[ParameterValues(key="pipeline.scene_generation.writer.arguments.a", values="_", boundaries=(0, 5)),
                             ParameterValues(key="pipeline.scene_generation.writer.arguments.b", values="_", boundaries=(0, 5))],
                 result_type="pixel", result_fit_range=[0, 3, 0, 4], target_fit_range=[0, 3, 0, 4], pygmo_seed=case["pygmo_seed"],
-                num_islands=case["islands"], num_evolutions=2,
+                num_islands=case["islands"], num_evolutions=2, pipeline_seed=case.get("pipeline_seed"),
             )
             try:
                 res = pyxel.run_mode(cal, det, pipe)
@@ -285,10 +290,14 @@ def yaml_document(case, times, tmp):
             pdoc["data_processing"] = [{"name": "wimg", "func": "probes.write_image", "enabled": True, "arguments": {}}]
     if mode == "exposure":
         section = {"exposure": {"readout": {"times": times}}}
+        if case.get("pipeline_seed") is not None:
+            section["exposure"]["pipeline_seed"] = case["pipeline_seed"]
     elif mode == "sequential":
         k1, k2 = swept_keys(case)
         params = [{"key": k1, "values": list(case["levels"])}] + ([{"key": k2, "values": list(case["levels2"])}] if case["levels2"] else [])
         section = {"observation": {"mode": "product", "with_dask": False, "parameters": params, "readout": {"times": times}}}
+        if case.get("pipeline_seed") is not None:
+            section["observation"]["pipeline_seed"] = case["pipeline_seed"]
     else:
         section = {"calibration": {
             "result_type": "pixel", "result_fit_range": [0, 3, 0, 4], "target_fit_range": [0, 3, 0, 4],
@@ -296,6 +305,8 @@ def yaml_document(case, times, tmp):
             "algorithm": dict(case["algo"]), "pygmo_seed": case["pygmo_seed"], "num_islands": case["islands"], "num_evolutions": 2,
             "parameters": [{"key": "pipeline.scene_generation.writer.arguments.a", "values": "_", "boundaries": [0, 5]},
                            {"key": "pipeline.scene_generation.writer.arguments.b", "values": "_", "boundaries": [0, 5]}]}}
+    if mode == "calibration" and case.get("pipeline_seed") is not None:
+        section["calibration"]["pipeline_seed"] = case["pipeline_seed"]
     if outputs:
         next(iter(section.values()))["outputs"] = outputs
     return {**section,
@@ -550,6 +561,9 @@ def body(ck: common.Check):
         impl = run_impl(case)
         ck.case(case, nontrivial=case["fault"] is not None, stream=stream)
         ck.count("mode=" + case["mode"])
+        ck.count("pipeline_seed=" + ("none" if case.get("pipeline_seed") is None else "set"))
+        if case["fault"] and case["fault"].get("model_seed") is not None:
+            ck.count("fault_inside_model_seed_region")
         if case.get("entry") == "yaml":
             ck.count("yaml_entry:outputs=" + str(bool(case["outputs"])))
         if case["fault"]:
@@ -618,7 +632,7 @@ def body(ck: common.Check):
     ck.rule = ("pipelines of 1-3 groups x 1-3 models (some disabled), 1-3 readout steps; exposure, sequential observation over 2-3 values "
                "(x 2 values of a second parameter), the same through the file entry point pyxel.run(<yaml>) with and without an outputs section (exposure, sequential observation, calibration), parallel observation (threads; every class at a run inside the dask graph and at the eager first run, with and without float/integer buckets written), calibration (sade / sga / nlopt; fault at an evaluation of the "
                f"initial population or of an evolution); {len(EXCS)} exception classes (incl. StopIteration, warnings, MemoryError), odd constructors / custom __str__, messages with newlines, "
-               "unicode, empty; a fault at EVERY (run, step, position) of small pipelines + random positions + fault-free runs; "
+               "unicode, empty; with and without a declared pipeline seed (incl. 0) and with the failing model raising inside its own seeded region; a fault at EVERY (run, step, position) of small pipelines + random positions + fault-free runs; "
                "non-trivial = a fault is injected")
     ck.assumptions = ["'its type' = exact class outside pygmo's island threads; inside them (evolution phase) only the message and the group/model text are required",
                       "the schedule order of the enabled models is the fixed group order (C01)",
